@@ -561,3 +561,370 @@ Proof.
   assert (E : tst (fst c) 0 = Destroyed) by (destruct (tst (fst c) 0); try discriminate; congruence).
   split; [exact E|]. apply (i1_res _ _ H). rewrite E. reflexivity.
 Qed.
+
+(* ================================================================== suspend / resume invariant *)
+Definition wk (g : shared) (j : nat) : Prop := 1 <= j <= nworkers g.
+
+Definition ctl_inv (g : shared) (p : pc) : Prop :=
+  match p with
+  | KSusWait => suspended g = false /\ forall j, wk g j -> wst g j = WsRunning
+  | KCas1 i => 1 <= i /\ suspended g = false /\ forall j, wk g j -> j < i -> wst g j <> WsRunning
+  | KCas2 i => 1 <= i /\ suspended g = false /\ (forall j, wk g j -> wst g j <> WsRunning) /\
+               (forall j, wk g j -> j < i -> wst g j = WsSleeping)
+  | KSpin i => wk g i /\ suspended g = false /\ (forall j, wk g j -> wst g j <> WsRunning) /\
+               (forall j, wk g j -> j < i -> wst g j = WsSleeping)
+  | KRes i => 1 <= i /\ suspended g = false /\ (forall j, wk g j -> wst g j <> WsPreSleep) /\
+              (forall j, wk g j -> j < i -> wst g j = WsRunning)
+  | _ => if suspended g then forall j, wk g j -> wst g j = WsSleeping
+         else forall j, wk g j -> wst g j = WsRunning
+  end.
+
+Record I2 (g : shared) (ls : locals local) : Prop := mkI2 {
+  i2_ctl : ctl_inv g (lpc (ls 0));
+  i2_wake : forall j, wake g j = true -> wk g j /\ wst g j = WsSleeping /\ lpc (ls 0) = KRes j;
+  i2_sleep : forall j, wk g j -> wst g j = WsSleeping -> lpc (ls j) = PAsleep;
+  i2_bad : bad g = false }.
+
+Definition neutral (g g' : shared) : Prop :=
+  wst g' = wst g /\ wake g' = wake g /\ suspended g' = suspended g /\ nworkers g' = nworkers g /\
+  (suspended g = false -> bad g' = bad g).
+
+Lemma neutral_refl g : neutral g g.
+Proof. repeat split. Qed.
+
+Lemma neutral_touch g g' : wst g' = wst g -> wake g' = wake g -> suspended g' = suspended g ->
+  nworkers g' = nworkers g -> bad g' = bad g -> neutral g (touch g').
+Proof.
+  intros A B C D E. unfold touch, neutral. destruct (suspended g') eqn:S; cbn.
+  - split; [exact A|split; [exact B|split; [congruence|split; [exact D|]]]].
+    intros K. congruence.
+  - split; [exact A|split; [exact B|split; [congruence|split; [exact D|]]]]. intros _. exact E.
+Qed.
+
+Lemma wstate_eqb_eq a b : wstate_eqb a b = true <-> a = b.
+Proof. destruct a, b; cbn; split; intros; congruence. Qed.
+
+Lemma ctl_inv_same g g' p : wst g' = wst g -> suspended g' = suspended g -> nworkers g' = nworkers g ->
+  ctl_inv g p -> ctl_inv g' p.
+Proof. intros A B C. unfold ctl_inv, wk. destruct p; rewrite ?A, ?B, ?C; auto. Qed.
+
+Lemma is_worker_wk g t : is_worker g t = true <-> wk g t.
+Proof.
+  unfold is_worker, wk. rewrite andb_true_iff, !Nat.leb_le. tauto.
+Qed.
+
+(* what a worker step does to the fields the suspend protocol looks at *)
+Lemma worker_shape o t g l :
+  let g' := fst (worker_step o t g l) in let l' := snd (worker_step o t g l) in
+  (neutral g g' /\ (lpc l = PAsleep -> g' = g /\ l' = l) /\ (lpc l' = PAsleep -> lpc l = PAsleep)) \/
+  (lpc l = PIdle /\ wst g t = WsPreSleep /\ wst g' = upd (wst g) t WsSleeping /\ wake g' = wake g /\
+   suspended g' = suspended g /\ nworkers g' = nworkers g /\ bad g' = bad g /\ lpc l' = PAsleep) \/
+  (lpc l = PAsleep /\ wake g t = true /\ wst g' = upd (wst g) t WsRunning /\ wake g' = upd (wake g) t false /\
+   suspended g' = suspended g /\ nworkers g' = nworkers g /\ bad g' = bad g /\ lpc l' = PIdle).
+Proof.
+  cbn zeta. unfold worker_step. destruct l as [p xt kt]. cbn [lpc].
+  assert (POP : forall pick, let r := pop_or_idle pick t g {| lpc := PIdle; xtodo := xt; ktodo := kt |} in
+            neutral g (fst r) /\ (PIdle = PAsleep -> fst r = g /\ snd r = {| lpc := PIdle; xtodo := xt; ktodo := kt |}) /\
+            (lpc (snd r) = PAsleep -> PIdle = PAsleep)).
+  { intros pick. cbn zeta. unfold pop_or_idle. destruct (queue g); cbn [fst snd lpc set_pc].
+    - split; [apply neutral_refl|split; [discriminate|auto]].
+    - split; [apply neutral_touch; reflexivity|split; discriminate]. }
+  destruct p; try (left; cbn [fst snd lpc]; split; [apply neutral_refl|split; [discriminate|auto]]; fail).
+  - (* PIdle *)
+    destruct (wst g t) eqn:W; [left; apply POP| |left; apply POP].
+    destruct (snd o); [|left; apply POP].
+    right; left. cbn. repeat split; auto.
+  - (* PRun *)
+    left. destruct rest as [|[] r]; cbn [fst snd lpc set_pc];
+      try (split; [apply neutral_touch; reflexivity|split; discriminate]).
+    + split; [|split; discriminate]. destruct (Nat.eqb id 0); apply neutral_touch; reflexivity.
+    + destruct (gen_wait_continue (count g) true); cbn [fst snd lpc set_pc];
+        (split; [apply neutral_touch; reflexivity|split; discriminate]).
+  - left. cbn [fst snd lpc set_pc]. split; [apply neutral_touch; reflexivity|split; discriminate].
+  - left. cbn [fst snd lpc set_pc]. split; [repeat split|split; discriminate].
+  - left. cbn [fst snd lpc set_pc]. split; [repeat split|split; discriminate].
+  - (* PAsleep *)
+    destruct (wake g t) eqn:K.
+    + right; right. cbn. repeat split; auto.
+    + left. cbn [fst snd lpc]. split; [apply neutral_refl|split; auto].
+Qed.
+
+Lemma ext_shape t g l : neutral g (fst (ext_step t g l)).
+Proof.
+  unfold ext_step. destruct l as [p xt kt]. cbn [lpc xtodo].
+  destruct p; try apply neutral_refl; cbn [fst].
+  - destruct xt as [|[] r]; cbn [fst]; try apply neutral_refl; repeat split.
+  - repeat split.
+  - repeat split.
+  - destruct (finalized g); apply neutral_refl.
+  - destruct (gen_wait_continue (count g) false); [apply neutral_refl|repeat split].
+  - destruct (gen_wait_continue (count g) false); [apply neutral_refl|repeat split].
+Qed.
+
+Lemma pc_eq_asleep (p : pc) : p = PAsleep \/ p <> PAsleep.
+Proof. destruct p; try (right; discriminate). left; reflexivity. Qed.
+
+Lemma I2_awake_not_suspended g (ls : locals local) t :
+  I2 g ls -> wk g t -> lpc (ls t) <> PAsleep -> suspended g = false.
+Proof.
+  intros H Hw Hp. destruct (suspended g) eqn:S; [exfalso|reflexivity].
+  assert (W : wst g t = WsSleeping).
+  { pose proof (i2_ctl _ _ H) as C. unfold ctl_inv in C. rewrite S in C.
+    destruct (lpc (ls 0)); try (apply C; exact Hw); exfalso;
+      repeat match goal with K : _ /\ _ |- _ => destruct K end; discriminate. }
+  apply Hp. apply (i2_sleep _ _ H t Hw W).
+Qed.
+
+Lemma I2_neutral g (ls : locals local) g' t l' :
+  I2 g ls -> t <> 0 -> neutral g g' ->
+  (wk g t -> wst g t = WsSleeping -> lpc l' = PAsleep) ->
+  (suspended g = false \/ bad g' = bad g) ->
+  I2 g' (upd ls t l').
+Proof.
+  intros H Ht (A & B & C & D & E) Hs Hb. constructor.
+  - rewrite upd_other by auto. apply (ctl_inv_same g g'); auto. apply (i2_ctl _ _ H).
+  - intros j. unfold wk. rewrite A, B, D, upd_other by auto. apply (i2_wake _ _ H).
+  - intros j. unfold wk. rewrite A, D. intros Hj Hw. destruct (Nat.eq_dec j t) as [->|Hne].
+    + rewrite upd_same. apply Hs; auto.
+    + rewrite upd_other by auto. apply (i2_sleep _ _ H); auto.
+  - destruct Hb as [Hb|Hb]; [rewrite E by exact Hb|rewrite Hb]; apply (i2_bad _ _ H).
+Qed.
+
+Lemma I2_worker o g (ls : locals local) t : I2 g ls -> t <> 0 -> wk g t ->
+  I2 (fst (worker_step o t g (ls t))) (upd ls t (snd (worker_step o t g (ls t)))).
+Proof.
+  intros H Ht Hw. pose proof (worker_shape o t g (ls t)) as S. cbn zeta in S.
+  set (g' := fst (worker_step o t g (ls t))) in *. set (l' := snd (worker_step o t g (ls t))) in *.
+  destruct S as [(N & Hsame & Hback)|[(Hp & Hpre & A & B & C & D & E & Hp')|(Hp & Hk & A & B & C & D & E & Hp')]].
+  - apply (I2_neutral g ls g' t l' H Ht N).
+    + intros _ Hsl. pose proof (i2_sleep _ _ H t Hw Hsl) as P. destruct (Hsame P) as [_ ->]. exact P.
+    + destruct (pc_eq_asleep (lpc (ls t))) as [P|P].
+      * right. destruct (Hsame P) as [-> _]. reflexivity.
+      * left. apply (I2_awake_not_suspended g ls t H Hw P).
+  - (* going to sleep *)
+    pose proof (i2_ctl _ _ H) as Cc. constructor.
+    + rewrite upd_other by auto. unfold ctl_inv, wk in *. rewrite A, C, D.
+      destruct (lpc (ls 0)) eqn:P0;
+        try (destruct (suspended g); intros j Hj; specialize (Cc t Hw); congruence).
+      * destruct Cc as [Cs Cr]. specialize (Cr t Hw). congruence.
+      * destruct Cc as (C1 & C2 & C3). repeat split; auto. intros j Hj Hlt. unfold upd.
+        destruct (Nat.eqb j t); [discriminate|apply C3; auto].
+      * destruct Cc as (C1 & C2 & C3 & C4). repeat split; auto; intros j Hj; unfold upd;
+          destruct (Nat.eqb j t); try discriminate; auto.
+      * destruct Cc as (C1 & C2 & C3 & C4). repeat split; auto; try apply C1; intros j Hj; unfold upd;
+          destruct (Nat.eqb j t); try discriminate; auto.
+      * destruct Cc as (C1 & C2 & C3 & C4). specialize (C3 t Hw). congruence.
+    + intros j. rewrite upd_other by auto. unfold wk. rewrite A, B, D. intros K.
+      destruct (i2_wake _ _ H j K) as (W0 & W1 & W2).
+      split; [exact W0|]. split; [|exact W2]. unfold upd. destruct (Nat.eqb j t); [reflexivity|exact W1].
+    + intros j. unfold wk. rewrite A, D. intros Hj. unfold upd at 1. destruct (Nat.eqb j t) eqn:Q.
+      * apply Nat.eqb_eq in Q. subst j. intros _. rewrite upd_same. exact Hp'.
+      * intros Hs. apply Nat.eqb_neq in Q. rewrite upd_other by auto. apply (i2_sleep _ _ H); auto.
+    + rewrite E. apply (i2_bad _ _ H).
+  - (* woken by resume *)
+    destruct (i2_wake _ _ H t Hk) as (W0 & W1 & W2). pose proof (i2_ctl _ _ H) as Cc. rewrite W2 in Cc.
+    constructor.
+    + rewrite upd_other by auto. rewrite W2. unfold ctl_inv, wk in *. rewrite A, C, D.
+      destruct Cc as (C1 & C2 & C3 & C4). repeat split; auto; intros j Hj; unfold upd;
+        destruct (Nat.eqb j t); try discriminate; auto.
+    + intros j. rewrite upd_other by auto. rewrite A, B. unfold upd. destruct (Nat.eqb j t) eqn:Q; [discriminate|].
+      intros K. destruct (i2_wake _ _ H j K) as (V0 & V1 & V2). rewrite W2 in V2. inversion V2. subst j.
+      rewrite Nat.eqb_refl in Q. discriminate.
+    + intros j. unfold wk. rewrite A, D. intros Hj. unfold upd at 1. destruct (Nat.eqb j t) eqn:Q; [discriminate|].
+      intros Hs. apply Nat.eqb_neq in Q. rewrite upd_other by auto. apply (i2_sleep _ _ H); auto.
+    + rewrite E. apply (i2_bad _ _ H).
+Qed.
+
+Lemma ext_bad t g l : bad (fst (ext_step t g l)) = bad g.
+Proof.
+  unfold ext_step. destruct l as [p xt kt]. cbn [lpc xtodo].
+  destruct p; try reflexivity; cbn [fst].
+  - destruct xt as [|[] r]; reflexivity.
+  - destruct (finalized g); reflexivity.
+  - destruct (gen_wait_continue (count g) false); reflexivity.
+  - destruct (gen_wait_continue (count g) false); reflexivity.
+Qed.
+
+Lemma I2_ext g (ls : locals local) t : I2 g ls -> t <> 0 -> ~ wk g t ->
+  I2 (fst (ext_step t g (ls t))) (upd ls t (snd (ext_step t g (ls t)))).
+Proof.
+  intros H Ht Hn. apply (I2_neutral g ls _ t _ H Ht (ext_shape t g (ls t))).
+  - intros K. contradiction.
+  - right. apply ext_bad.
+Qed.
+
+Lemma cas_fields g i :
+  wake (cas_presleep g i) = wake g /\ suspended (cas_presleep g i) = suspended g /\
+  nworkers (cas_presleep g i) = nworkers g /\ bad (cas_presleep g i) = bad g /\
+  wst (cas_presleep g i) i <> WsRunning /\
+  (forall j, j <> i -> wst (cas_presleep g i) j = wst g j) /\
+  (forall j, wst (cas_presleep g i) j = WsSleeping -> wst g j = WsSleeping) /\
+  (forall j, wst g j <> WsRunning -> wst (cas_presleep g i) j = wst g j).
+Proof.
+  unfold cas_presleep. destruct (wstate_eqb (wst g i) WsRunning) eqn:Q; cbn.
+  - apply wstate_eqb_eq in Q. repeat split; auto.
+    + rewrite upd_same. discriminate.
+    + intros j Hj. apply upd_other. exact Hj.
+    + intros j. unfold upd. destruct (Nat.eqb j i); [discriminate|auto].
+    + intros j. unfold upd. destruct (Nat.eqb j i) eqn:E; [|auto]. apply Nat.eqb_eq in E. subst. congruence.
+  - repeat split; auto. intros K. apply wstate_eqb_eq in K. congruence.
+Qed.
+
+Lemma I2_ctl_gen g (ls : locals local) g' l' :
+  I2 g ls -> nworkers g' = nworkers g -> ctl_inv g' (lpc l') ->
+  (forall j, wake g' j = true -> wk g j /\ wst g' j = WsSleeping /\ lpc l' = KRes j) ->
+  (forall j, wk g j -> wst g' j = WsSleeping -> wst g j = WsSleeping) ->
+  bad g' = bad g -> I2 g' (upd ls 0 l').
+Proof.
+  intros H N C W S B. constructor.
+  - rewrite upd_same. exact C.
+  - intros j. rewrite upd_same. unfold wk. rewrite N. apply W.
+  - intros j. unfold wk. rewrite N. intros Hj Hs. rewrite upd_other by (destruct Hj; lia).
+    apply (i2_sleep _ _ H j Hj). apply S; auto.
+  - rewrite B. apply (i2_bad _ _ H).
+Qed.
+
+Lemma I2_ctl g (ls : locals local) : I2 g ls ->
+  I2 (fst (ctl_step g (ls 0))) (upd ls 0 (snd (ctl_step g (ls 0)))).
+Proof.
+  intros H. pose proof (i2_ctl _ _ H) as C. pose proof (i2_wake _ _ H) as Wk.
+  unfold ctl_step. destruct (ls 0) as [p xt kt] eqn:El. cbn [lpc ktodo xtodo] in *.
+  assert (NOWAKE : (forall i, p <> KRes i) ->
+            forall j (q : pc), wake g j = true -> wk g j /\ wst g j = WsSleeping /\ q = KRes j).
+  { intros Hp j q K. destruct (Wk j K) as (_ & _ & E). exfalso. apply (Hp j). exact E. }
+  destruct p;
+    try (cbn [fst snd]; apply (I2_ctl_gen g ls g _ H); auto; try (intros j0 K0; eapply NOWAKE; [intros; discriminate|exact K0]); fail).
+  - (* PIdle *)
+    destruct kt as [|[] r]; cbn [fst snd].
+    + apply (I2_ctl_gen g ls g _ H); auto; try (intros j0 K0; eapply NOWAKE; [intros; discriminate|exact K0]).
+    + destruct (suspended g) eqn:S; cbn [fst snd]; apply (I2_ctl_gen g ls g _ H); auto;
+        try (intros j0 K0; eapply NOWAKE; [intros; discriminate|exact K0]); cbn; rewrite ?S; auto.
+      unfold ctl_inv in C. rewrite S in C. split; auto.
+    + destruct (suspended g) eqn:S; cbn [fst snd].
+      * apply (I2_ctl_gen g ls _ _ H); auto; cbn.
+        -- unfold ctl_inv in C. rewrite S in C. repeat split; auto.
+           ++ intros j Hj. rewrite (C j Hj). discriminate.
+           ++ intros j [Hj _] Hlt. lia.
+        -- intros j K. destruct (Wk j K) as (_ & _ & E). discriminate.
+      * apply (I2_ctl_gen g ls g _ H); auto; try (intros j0 K0; eapply NOWAKE; [intros; discriminate|exact K0]);
+          try (cbn; rewrite S; unfold ctl_inv in C; rewrite S in C; exact C).
+  - (* KSusWait *)
+    destruct (gen_wait_continue (count g) false); cbn [fst snd]; apply (I2_ctl_gen g ls g _ H); auto;
+      try (intros j0 K0; eapply NOWAKE; [intros; discriminate|exact K0]).
+    cbn. destruct C as [C1 C2]. repeat split; auto. intros j [Hj _] Hlt. lia.
+  - (* KCas1 *)
+    destruct C as (C1 & C2 & C3). destruct (i <=? nworkers g) eqn:Q; cbn [fst snd].
+    + destruct (cas_fields g i) as (F1 & F2 & F3 & F4 & F5 & F6 & F7 & F8).
+      apply (I2_ctl_gen g ls _ _ H); auto.
+      * cbn. unfold wk. rewrite F2, F3. repeat split; auto.
+        intros j Hj Hlt. destruct (Nat.eq_dec j i) as [->|Hne]; [exact F5|].
+        rewrite F6 by exact Hne. apply C3; [exact Hj|lia].
+      * intros j. rewrite F1. intros K. destruct (Wk j K) as (_ & _ & E). discriminate.
+    + apply Nat.leb_gt in Q. apply (I2_ctl_gen g ls g _ H); auto; try (intros j0 K0; eapply NOWAKE; [intros; discriminate|exact K0]).
+      cbn. repeat split; auto.
+      * intros j Hj. apply C3; [exact Hj|]. unfold wk in Hj; cbn in Hj; lia.
+      * intros j [Hj _] Hlt. lia.
+  - (* KCas2 *)
+    destruct C as (C1 & C2 & C3 & C4). destruct (i <=? nworkers g) eqn:Q; cbn [fst snd].
+    + apply Nat.leb_le in Q. destruct (cas_fields g i) as (F1 & F2 & F3 & F4 & F5 & F6 & F7 & F8).
+      apply (I2_ctl_gen g ls _ _ H); auto.
+      * cbn. unfold wk. rewrite F2, F3. repeat split; auto.
+        -- intros j Hj. rewrite F8; auto.
+        -- intros j Hj Hlt. rewrite F8; auto.
+      * intros j. rewrite F1. intros K. destruct (Wk j K) as (_ & _ & E). discriminate.
+    + apply Nat.leb_gt in Q. apply (I2_ctl_gen g ls _ _ H); auto; cbn.
+      * intros j Hj. apply C4; [exact Hj|]. unfold wk in Hj; cbn in Hj; lia.
+      * intros j K. destruct (Wk j K) as (_ & _ & E). discriminate.
+  - (* KSpin *)
+    destruct C as (C1 & C2 & C3 & C4). destruct (wstate_eqb (wst g i) WsPreSleep) eqn:Q; cbn [fst snd];
+      apply (I2_ctl_gen g ls g _ H); auto; try (intros j0 K0; eapply NOWAKE; [intros; discriminate|exact K0]).
+    + cbn. repeat split; auto; apply C1.
+    + cbn. destruct C1 as [C1a C1b]. repeat split; auto.
+      intros j Hj Hlt. destruct (Nat.eq_dec j i) as [->|Hne]; [|apply C4; [exact Hj|lia]].
+      specialize (C3 i Hj). destruct (wst g i); try congruence. discriminate.
+  - (* KRes *)
+    destruct C as (C1 & C2 & C3 & C4). destruct (i <=? nworkers g) eqn:Q; cbn [fst snd].
+    + apply Nat.leb_le in Q. destruct (wstate_eqb (wst g i) WsSleeping) eqn:E; cbn [fst snd].
+      * apply wstate_eqb_eq in E. apply (I2_ctl_gen g ls _ _ H); auto; cbn.
+        -- repeat split; auto.
+        -- intros j. unfold upd. destruct (Nat.eqb j i) eqn:J.
+           ++ apply Nat.eqb_eq in J. subst j. intros _. unfold wk. repeat split; auto.
+           ++ intros K. apply (Wk j K).
+      * apply (I2_ctl_gen g ls g _ H); auto.
+        -- cbn. repeat split; auto. intros j Hj Hlt.
+           destruct (Nat.eq_dec j i) as [->|Hne]; [|apply C4; [exact Hj|lia]].
+           specialize (C3 i Hj). destruct (wst g i); try congruence; discriminate.
+        -- intros j K. destruct (Wk j K) as (V0 & V1 & V2). inversion V2. subst j.
+           rewrite V1 in E. discriminate.
+    + apply Nat.leb_gt in Q. apply (I2_ctl_gen g ls _ _ H); auto; cbn.
+      * rewrite C2. intros j Hj. apply C4; [exact Hj|]. unfold wk in Hj; cbn in Hj; lia.
+      * intros j K. destruct (Wk j K) as (V0 & V1 & V2). inversion V2. subst j. destruct V0. lia.
+Qed.
+
+Lemma I2_step o t g (ls : locals local) : I2 g ls ->
+  I2 (fst (lc_tstep o t g (ls t))) (upd ls t (snd (lc_tstep o t g (ls t)))).
+Proof.
+  intros H. unfold lc_tstep. destruct (Nat.eqb t 0) eqn:T0.
+  - apply Nat.eqb_eq in T0. subst t. apply I2_ctl. exact H.
+  - apply Nat.eqb_neq in T0. destruct (is_worker g t) eqn:W.
+    + apply I2_worker; auto. apply is_worker_wk. exact W.
+    + apply I2_ext; auto. intros K. apply is_worker_wk in K. congruence.
+Qed.
+
+Lemma I2_init w entry r xs ks : I2 (lc_init w entry r) (lc_locals xs ks).
+Proof.
+  constructor; cbn; auto; intros; discriminate.
+Qed.
+
+Theorem I2_reachable sched w entry r xs ks :
+  let c := lc_run sched w entry r xs ks in I2 (fst c) (snd c).
+Proof.
+  unfold lc_run. apply (run_inv shared local (nat * bool) lc_tstep I2).
+  - intros o t g ls H. apply I2_step. exact H.
+  - apply I2_init.
+Qed.
+
+Lemma I2_suspended_asleep g (ls : locals local) t :
+  I2 g ls -> suspended g = true -> wk g t -> wst g t = WsSleeping /\ lpc (ls t) = PAsleep.
+Proof.
+  intros H S Hw.
+  assert (W : wst g t = WsSleeping).
+  { pose proof (i2_ctl _ _ H) as C. unfold ctl_inv in C. rewrite S in C.
+    destruct (lpc (ls 0)); try (apply C; exact Hw); exfalso;
+      repeat match goal with K : _ /\ _ |- _ => destruct K end; discriminate. }
+  split; [exact W|]. apply (i2_sleep _ _ H t Hw W).
+Qed.
+
+(* between suspend() returning and resume() being called no worker touches a task: every worker is
+   blocked in scheduler_base::suspend, and the ghost flag [bad] (set by any pop / body / spawn /
+   yield / terminate step taken while [suspended]) is never set *)
+Lemma suspended_runs_nothing sched w entry r xs ks :
+  let c := lc_run sched w entry r xs ks in
+  bad (fst c) = false /\
+  (suspended (fst c) = true ->
+   forall t, 1 <= t <= nworkers (fst c) -> wst (fst c) t = WsSleeping /\ lpc (snd c t) = PAsleep).
+Proof.
+  cbn zeta. pose proof (I2_reachable sched w entry r xs ks) as H. cbn zeta in H.
+  split; [apply (i2_bad _ _ H)|]. intros S t Ht. apply (I2_suspended_asleep _ _ t H S Ht).
+Qed.
+
+(* when resume() has returned (the controlling thread is between calls and the runtime is not
+   suspended) every worker's scheduler state is running, and a running idle worker facing a
+   non-empty queue takes a task on its next step *)
+Lemma resume_runs_all sched w entry r xs ks :
+  let c := lc_run sched w entry r xs ks in
+  lpc (snd c 0) = PIdle -> suspended (fst c) = false ->
+  forall t, 1 <= t <= nworkers (fst c) -> wst (fst c) t = WsRunning.
+Proof.
+  cbn zeta. pose proof (I2_reachable sched w entry r xs ks) as H. cbn zeta in H.
+  intros P S t Ht. pose proof (i2_ctl _ _ H) as C. rewrite P in C. cbn in C. rewrite S in C. apply C. exact Ht.
+Qed.
+
+Lemma running_worker_takes_work o t g l :
+  wst g t = WsRunning -> lpc l = PIdle -> queue g <> [] ->
+  exists id, In id (queue g) /\ lpc (snd (worker_step o t g l)) = PRun id (tprog g id).
+Proof.
+  intros W P Q. unfold worker_step. rewrite P, W. unfold pop_or_idle.
+  destruct (queue g) as [|a q] eqn:E; [congruence|]. cbn [snd set_pc lpc].
+  eexists. split; [|reflexivity]. rewrite <- E. apply nth_In. apply Nat.mod_upper_bound. rewrite E. cbn. lia.
+Qed.
